@@ -227,6 +227,11 @@ func (s *Sim) GC() {
 	if s.Passthrough {
 		realGC()
 	}
+	// Finalizers the library registered run now, as a task of their own.
+	if run := s.collect(); run != nil {
+		s.Tracef("  gc: finalizers of unreachable objects run as a new task")
+		s.startTask("finalizers", run)
+	}
 }
 
 // Available returns how many objects the stub pools currently hold.
